@@ -321,6 +321,23 @@ def generate(X):
              + ",\n  ".join("(" + X.lstr(c) + ", [" + ", ".join(X.lstr(o) for o in outs) + "], [" + ", ".join(X.lstr(d) for d in direct) + "])"
                             for c, outs, direct in eq_rows) + "]\n")
     L.append(f"/-- body of `Equivalence._get_out` -/\ndef getOutBody : String := {X.lstr(get_out)}\n")
+    def idx(lst, x):
+        return lst.index(x) if x in lst else -1
+
+    ctu = orders["convertToUnits"]
+    units_last = idx(ctu, "W:self.units") > max(idx(ctu, "W:values*="), idx(ctu, "W:np.subtract(out=values)"))
+    ro_guard = ctu[: max(idx(ctu, "W:values.dtype"), 0)].count("F:raise:ValueError") >= 2
+    au = orders["arrayUfunc"]
+    out_ro_guard = "F:raise:ValueError" in au[: max(idx(au, "W:out.dtype"), 0)]
+    L.append("/-- `convert_to_units` assigns `self.units` after the data have been converted (fix C18-01) -/\n"
+             f"def ctuUnitsLast : Bool := {'true' if units_last else 'false'}\n")
+    L.append("/-- `convert_to_units` refuses a read-only integer buffer before re-typing it (fix C18-03) -/\n"
+             f"def ctuReadonlyGuard : Bool := {'true' if ro_guard else 'false'}\n")
+    L.append("/-- the `out=` promotion of `__array_ufunc__` refuses a read-only integer buffer before re-typing it (fix C18-03) -/\n"
+             f"def outReadonlyGuard : Bool := {'true' if out_ro_guard else 'false'}\n")
+    simplify_copies = not any(e.startswith("W:") for e in orders["unitSimplify"])
+    L.append("/-- `Unit.simplify` builds a new unit instead of assigning `self.expr` (fix C18-02) -/\n"
+             f"def simplifyCopies : Bool := {'true' if simplify_copies else 'false'}\n")
     reenters = "W:multiply(out=out)" in orders["arrayUfunc"]
     L.append("/-- the `out=` post-multiplication of `__array_ufunc__` is `multiply(out, mul, out=out)` on the unyt array\n"
              "    (a nested `__array_ufunc__` call) rather than on the raw buffer `out_func` -/\n"
@@ -328,4 +345,5 @@ def generate(X):
     L.append("end Unyt.Generated.C18\n")
     X.write_if_changed(os.path.join(X.GEN, "C18Order.lean"), "\n".join(L))
     return {"orders": orders, "methodFacts": [[m, ws, cs] for m, ws, cs in facts],
-            "equivalenceOuts": [[c, outs, d] for c, outs, d in eq_rows], "getOutBody": get_out, "fixupReenters": reenters}
+            "equivalenceOuts": [[c, outs, d] for c, outs, d in eq_rows], "getOutBody": get_out, "fixupReenters": reenters,
+            "simplifyCopies": simplify_copies, "ctuUnitsLast": units_last, "ctuReadonlyGuard": ro_guard, "outReadonlyGuard": out_ro_guard}
